@@ -800,6 +800,9 @@ func scenarios1(prop string) []d1x.Scenario {
 	if prop == "C42" {
 		return pairScenarios()
 	}
+	if prop == "C14" {
+		return bgScenarios()
+	}
 	if prop == "C37" || prop == "C38" {
 		// the concurrency halves of C37 / C38, run as sub-checks of those properties: the reader-like
 		// operation against the writes it synchronises with, preemption bound 1 already in the quick
